@@ -13,7 +13,7 @@ from typing import Any, Dict, Iterable, List, Optional, Tuple
 
 from ..core import Prop, REPO
 
-LOC = re.compile(r"ERROR: <input>:(\d+):(\d+)")
+LOC = re.compile(r"ERROR: <input>:(\d+|\?):(\d+|\?)")      # `?` = the report of an error that carries no source position
 
 
 # --------------------------------------------------------------------------------------------------
@@ -255,7 +255,7 @@ def analyse(c: Dict[str, Any]) -> Dict[str, Any]:
         try:
             v = prog.evaluate(act)
         except CELEvalError as ex:
-            res["eloc"] = f"{ex.line}:{ex.column}"
+            res["eloc"] = f"{ex.line or '?'}:{ex.column or '?'}"      # an error built without a parse-tree node has no position: reported as ?:?
             return "E"
         except Exception as ex:  # noqa
             return "R:" + type(ex).__name__
@@ -360,6 +360,37 @@ SYNTAX_ERRORS = ["1 +", "(1", "1 2", "[1,", "a b", ".a ..b", "1 ? 2", "\"open", 
                  # lexer level: characters no terminal starts with, unterminated literals
                  "1 + @", "#", "$", "`", "|", "1 | 2", "1 & 2", "a $ b", "~1", "1 + \\", "'open", "\"unterminated", "b\"open", "r'open",
                  "\"\"\"never closed", ".a @ .b", "1 ^ 2", "x = = 1", "1 + \u00e9@"]
+
+# evaluation errors by ORIGIN.  What `main` does with a CELEvalError (report it, status 2) must not depend on where the error object was made:
+# at a parse-tree node (operators, member / index access, unknown names: the error carries line:column), inside a function body that RETURNS an
+# error value, inside a macro that folds error values (all / exists), in `in`, in a conversion, in map construction; such errors may carry no
+# source position, a different message type, a cause.  Kernels are grouped by origin; ERR_CONTEXTS put a kernel where the error is
+# propagated, absorbed (short circuit) or re-made by an enclosing node.
+ERR_KERNELS = [
+    # operator / access at a tree node
+    "1 / 0", "1 % 0", "9223372036854775807 + 1", "1u - 2u", "-(-9223372036854775807 - 1)", "zz", "{\"a\": 1}.b", "[1][5]", "{\"a\": 1}[1]", "[1][\"a\"]",
+    "1 + \"a\"", "-\"a\"", "!1", "1 ? 2 : 3", "1 in 2", "nosuch(1)", "\"a\" % 1", "duration(\"1s\") + 1", "timestamp(\"9999-12-31T23:59:59Z\") + duration(\"1h\")",
+    # function body (the function returns / raises the error itself)
+    "has()", "size(1)", "\"a\".startsWith(1)", "\"a\".size(1)", "\"abc\".matches(1)", "\"a\".matches(\"(\")", "bytes(1)", "getDate{}",
+    "timestamp(\"2020-01-01T00:00:00Z\").getHours(\"Nowhere/Zone\")",
+    # conversions
+    "int(\"x\")", "uint(-1)", "int(1e100)", "double(\"x\")", "bool(\"x\")", "timestamp(\"x\")", "duration(\"x\")",
+    # macro bodies: the error is made inside the fold over the elements
+    "[1, 2].all(x, x / 0 > 1)", "[1, 2].exists(x, x / 0 > 1)", "[1, 2].exists_one(x, x / 0 > 1)", "[1, 2].map(x, x / 0)", "[1, 2].filter(x, x / 0 > 1)",
+    "[1, 2].all(x, y)", "[1, 2].exists(x, x + \"a\" == \"a\")", "[1].all(x, zz)", "{1: 2}.all(k, k / 0 > 0)", "[[1]].all(x, x.all(y, y / 0 > 1))",
+    "[0, 1].exists(x, 1 / x > 5)", "[1, 0].all(x, 1 / x > 5)",
+    # membership
+    "\"a\" in {1: 2}", "1 in {\"a\": 1}", "[1] in {1: 2}",
+    # map construction
+    "{1: 2, 1: 3}", "{[1]: 2}",
+]
+ERR_CONTEXTS = ["$K", "($K)", "[$K]", "[1, $K]", "{\"k\": $K}", "{$K: 1}", "true ? $K : 1", "false ? 1 : $K", "($K) == ($K)", "true && ($K)", "false || ($K)",
+                "false && ($K)", "true || ($K)", "($K) || true", "($K) && false", "($K) > 1 ? 1 : 2", "type($K)", "size([$K])", "[1].map(x, $K)",
+                "[1, 2].all(x, $K)", "[1, 2].exists(x, $K)", "[1].all(x, [1].all(y, $K))", "[$K].size() == 1", "has({\"a\": $K}.a)", "dyn($K)",
+                "($K) in [1]", "1 in [$K]"]
+# the same on documents: the expression errors (position-less) on some documents of the stream only
+ERR_DOC_T = ["{P}l.all(x, x / 0 > 1)", "{P}l.exists(x, x / {P}a > 1)", "{P}l.all(x, 10 / x > 1)", "{P}s in {{1: 2}}", "{P}a in {{\"a\": 1}}", "{P}l.all(x, x + {P}s == {P}s)",
+             "{P}a > 0 ? has() : {P}f", "{P}s.startsWith({P}a)", "size({P}a) > 0", "{P}l.map(x, x / {P}b)", "{P}l.exists(x, y)", "{P}a in {P}o"]
 
 ARG_SAMPLES = [
     ("int", ["5", "-3", "0", "9223372036854775807", "0x10"]), ("uint", ["5", "0", "18446744073709551615"]), ("double", ["1.5", "-0.0", "1e10", "3"]),
@@ -518,7 +549,9 @@ class C20(Prop):
             "(length <= 12: objects with int/string/list/bool/object fields, missing or ill-typed fields so that the expression errors, non-object documents, "
             "non-JSON lines incl. a complete value followed by text, blank lines, with/without trailing newline, LF / CRLF, non-ASCII text raw or escaped, strings and member names holding "
             "U+0085 / U+2028 / U+2029 / VT / FF / FS / GS / RS / NBSP / BOM) and slurped multi-line documents, result values of every kind in every position (maps keyed by bool / int / uint / "
-            "double / string, nested containers, bytes, timestamps, durations, non-finite doubles, boundary integers) as literals and computed from the document, the cutting of the input text into documents, x expressions of the boolean/int/string/list fragment "
+            "double / string, nested containers, bytes, timestamps, durations, non-finite doubles, boundary integers) as literals and computed from the document, the cutting of the input text into documents, "
+            "evaluation errors of every origin (operator / member / index at a tree node, function bodies, conversions, all / exists / exists_one / map / filter bodies, `in`, map construction: with and "
+            "without a source position) as the whole -n expression and inside propagating / absorbing contexts, with and without -b, and on some documents of a stream, x expressions of the boolean/int/string/list fragment "
             "written with `.f`, `pkg.f`, bare `f` or `doc.f`, x with/without -b, x default package / -p NAME / -d NAME; every case through main(argv) in-process, "
             "a sample through `python -m celpy`. non-trivial = distinct case with a stream of >= 2 lines containing an erroring or malformed line, or -b, or a syntax/usage error, or an --arg binding")
 
@@ -631,6 +664,32 @@ class C20(Prop):
             d = dict(c)
             d["sub"] = True
             cases.append(d)
+        # evaluation errors by origin (drawn after everything else: the cases above are those of the earlier rounds for a given seed): every kernel
+        # as the whole expression with and without -b, kernels inside random contexts, position-less errors on some documents of a stream;
+        # two of them through a real process (a traceback also exits 1 = "the result is false" under -b)
+        errs: List[Dict[str, Any]] = []
+        for e in ERR_KERNELS:
+            for b in (False, True):
+                errs.append({"kind": "evalerr", "mode": "n", "b": b, "expr": e, "args": [], "stdin": ""})
+        quiet = [k for k in ERR_KERNELS if "matches(\"(\")" not in k]       # (re2 logs a bad pattern on the process's fd 2: that kernel stays in the fixed block)
+        for i in range(150 if quick else 3000):
+            k = rng.choice(quiet)
+            e = rng.choice(ERR_CONTEXTS).replace("$K", k)
+            if rng.random() < 0.25:
+                e = rng.choice(ERR_CONTEXTS).replace("$K", e)
+            errs.append({"kind": "evalerr", "mode": "n", "b": rng.random() < 0.6, "expr": e, "args": [], "stdin": ""})
+        for t in ERR_DOC_T:
+            for b in (False, True):
+                pd = rng.choice([None, None, ["d", "doc"]])
+                errs.append({"kind": "stream", "mode": "j", "b": b, "pd": pd, "expr": render(t, "doc." if pd else ".", "doc" if pd else "jq"), "args": [],
+                             "stdin": gen_stream(rng, rng.choice([2, 3, 5])), "solo": b})
+            errs.append({"kind": "slurp", "mode": "s", "b": rng.random() < 0.5, "pd": None, "expr": render(t, ".", "jq"), "args": [], "stdin": json.dumps(gen_obj(rng))})
+        cases += errs
+        nopos = [c for c in errs if c["kind"] == "evalerr" and c["expr"] in ("has()", "[1, 2].all(x, x / 0 > 1)", "\"a\" in {1: 2}", "1 / 0") and c["b"]]
+        for c in (nopos[:2] if quick else nopos):
+            d = dict(c)
+            d["sub"] = True
+            cases.append(d)
         return cases
 
     # ---- implementation ----------------------------------------------------------------------------------
@@ -701,6 +760,8 @@ class C20(Prop):
                 return f"syntax error printed {lines!r} on stdout ({where})"
             if loc == "-":
                 return f"syntax error without a location message on stderr ({where})"
+            if "?" in loc:
+                return f"syntax error reported without a line:column position ({loc}) ({where})"
             ln, col = (int(x) for x in loc.split(":"))
             src_lines = (c["expr"] or "").split("\n")
             if not (1 <= ln <= max(1, len(src_lines)) and 1 <= col <= len(src_lines[min(ln, len(src_lines)) - 1]) + 1):
